@@ -67,6 +67,6 @@ Lemma refuted_unfixed :
     get root (KAdf11 FLine (lsym s) q) d = Some (t_val t1) /\ t_val t1 <> t_val t0.
 Proof.
   exists ["repo"%string], {| sym := "C"; znum := 6 |}, 2,
-         {| t_ok := true; t_val := 1%positive |}, {| t_ok := true; t_val := 2%positive |}.
+         (leaf_ok 1%positive), (leaf_ok 2%positive).
   vm_compute. repeat split; congruence.
 Qed.
